@@ -107,6 +107,9 @@ func runNodeAsync(programs []string, timeoutMs int) ([]NodeResult, error) {
 	var stderr bytes.Buffer
 	cmd.Stderr = &stderr
 	if err := cmd.Run(); err != nil {
+		if d := os.Getenv("C05_DUMP"); d != "" { // development aid: keep the input of a crashed node run
+			os.WriteFile(d, data, 0o644)
+		}
 		return nil, fmt.Errorf("node failed: %v: %s", err, stderr.String())
 	}
 	raw, err := os.ReadFile(outp)
@@ -430,18 +433,25 @@ var witnesses = []witness{
 		"class K { #m() { return this instanceof K ? \"this ok\" : \"this lost\"; } #o = {f() { return this === undefined ? \"this lost\" : \"this ok\"; }}; run(o) { return [o?.#m?.(), (o?.#m)?.(), o?.#o.f?.()]; } }\n$p(new K().run(new K));\n", es(api.ES2021)},
 	{"C05-F18", "async arrow that uses `super` but not `this` (target es2016): lowered to `__async(null, null, function*(){ return __superGet(A.prototype, this, \"foo\") })`, this is null inside, a getter on the base class sees no receiver",
 		"class B { get foo() { return this.tag; } }\nclass A extends B { tag = \"a\"; m() { return async () => super.foo; } }\nnew A().m()().then(function(v) { $p(\"value\", v); }, function(e) { $p(\"rejected\", e.constructor.name); });\n", es(api.ES2016)},
-	{"C05-F19", "`yield*` inside a SYNC generator is wrapped in __yieldStar when async generators are lowered (target es2017): the delegate's Symbol.asyncIterator is preferred over Symbol.iterator",
-		"var src = {[Symbol.iterator]() { return [3][Symbol.iterator](); }, [Symbol.asyncIterator]() { throw new Error(\"async iterator used\"); }};\nfunction* g1() { yield* [1, 2]; yield* src; }\ntry { $p(Array.from(g1())); } catch (e) { $p(e.message); }\n", es(api.ES2017)},
-	{"C05-F20", "a parenthesised optional chain ending in a private member as a template tag, ``(a?.#b)`x` `` (target es2020: private names lowered, optional chaining kept): the tag is called without this (F17 family)",
-		"class K { #b(s) { return this instanceof K ? \"this ok\" : \"this lost\"; } run(a) { return (a?.#b)`x`; } }\n$p(new K().run(new K));\n", es(api.ES2020)},
-	{"C05-F21", "`constructor() { return super() }` in a derived class with lowered fields (target es2020): the __super() shim is turned back into super() and then not used, the field initialisers are never run",
-		"class B2 {}\nclass A2 extends B2 { x = 1; constructor() { return super(); } }\n$p(new A2().x);\n", es(api.ES2020)},
 }
 
 // Findings that were repaired by a fix: commit in /repo: their inputs (and close
 // variants) must behave identically now; a difference is a VIOLATION (a revert
 // of the fix is reported with the input).
 var mustPass = []witness{
+	{"C05-F19", "`yield*` inside a SYNC generator is wrapped in __yieldStar when async generators are lowered (target es2017): the delegate's Symbol.asyncIterator is preferred over Symbol.iterator",
+		"var src = {[Symbol.iterator]() { return [3][Symbol.iterator](); }, [Symbol.asyncIterator]() { throw new Error(\"async iterator used\"); }};\nfunction* g1() { yield* [1, 2]; yield* src; }\ntry { $p(Array.from(g1())); } catch (e) { $p(e.message); }\n", es(api.ES2017)},
+	{"C05-F20", "a parenthesised optional chain ending in a private member as a template tag, ``(a?.#b)`x` `` (target es2020: private names lowered, optional chaining kept): the tag is called without this (F17 family)",
+		"class K { #b(s) { return this instanceof K ? \"this ok\" : \"this lost\"; } run(a) { return (a?.#b)`x`; } }\n$p(new K().run(new K));\n", es(api.ES2020)},
+	{"C05-F21", "`constructor() { return super() }` in a derived class with lowered fields (target es2020): the __super() shim is turned back into super() and then not used, the field initialisers are never run",
+		"class B2 {}\nclass A2 extends B2 { x = 1; constructor() { return super(); } }\n$p(new A2().x);\n", es(api.ES2020)},
+	{"C05-F19", "(variant) only async-generator unsupported; delegate generator with return value next to an object that has both iterators",
+		"var src = {[Symbol.iterator]() { return [3][Symbol.iterator](); }, [Symbol.asyncIterator]() { throw new Error(\"async iterator used\"); }};\nfunction* g1() { var r = yield* (function*() { var x = yield 1; return x * 2; })(); yield r; yield* src; }\nvar it = g1();\ntry { $p(it.next(), it.next(21), it.next(), it.next()); } catch (e) { $p(e.message); }\nasync function* ag() { yield* [7]; }\n(async () => { for await (var v of ag()) $p(\"ag\", v); })();\n",
+		api.TransformOptions{Loader: api.LoaderJS, LogLevel: api.LogLevelSilent, Target: api.ESNext, Supported: map[string]bool{"async-generator": false}}},
+	{"C05-F20", "(variant) private field holding a function and a deeper chain as tags, target es2021",
+		"class K { #f = function(s) { return this instanceof K ? \"this ok\" : \"this lost\"; }; o = this; #b(s, v) { return [this instanceof K, s.raw.join(\"|\"), v]; } run(a) { return [(a?.#f)`z`, (a?.o.#b)`x${1}y`, a.#b`q`]; } }\n$p(new K().run(new K));\n", es(api.ES2021)},
+	{"C05-F21", "(variant) conditional `return super()`, `return super(), obj`, and a private field, target es2015",
+		"class B2 { constructor(v) { this.v = v; } }\nclass A3 extends B2 { x = 2; constructor(c) { if (c) return super(6); super(7); } }\nclass A4 extends B2 { x = 3; constructor() { return super(8), {alt: 1}; } }\nclass A5 extends B2 { #p = 4; constructor() { return super(9); } get p() { return this.#p; } }\n$p(new A3(1).x, new A3(1).v, new A3(0).x, new A3(0).v, new A4(), new A5().p);\n", es(api.ES2015)},
 	{"C05-F15", "`[o.#g = d] = []`: the private member with a default value in an array pattern is not lowered, the output assigns the public property `_g`",
 		"class E { #g = 0; static run(o) { [o.#g = \"dflt\"] = []; return [o.#g, Object.keys(o)]; } }\n$p(E.run(new E));\ntry { $p(E.run({})); } catch (e) { $p(e.constructor.name); }\n", es(api.ES2021)},
 	{"C05-F16", "`for (o.#g of xs)`: the private member as a for-of target is not lowered, the output assigns the public property `_g`",
